@@ -11,7 +11,14 @@
      dv.uns   asLiteral has no uint64 case (a uint64 binding becomes a NilLiteral)
      dv.tse   = and != between two strings that both look like time literals compare instants
    Not modelled (outside C09's value kinds; the operator returns an "Unmodelled" node):
-   duration * / float, regex and list literals, bound parameters, time zones other than UTC. *)
+   duration * / float, regex and list literals, bound parameters, time zones with transitions
+   (a zone is a fixed offset, minutes east of UTC).
+
+   The valuer given to Reduce is either the flat record of the expression family
+   (MapValuer / NowValuer below) or a composition tree (TimeSem's header) whose methods
+   Value, Call and Zone are transcribed from MapValuer, NowValuer and multiValuer
+   (CompValuer below); reduceBinaryExpr's `loc` is threaded through the LHS functions
+   exactly as in ast.go.                                                               *)
 EXTENDS EvalSem, TimeSem, Ast
 
 DevAll  == [uns |-> TRUE, tse |-> TRUE]      \* the tree as it is
@@ -42,8 +49,8 @@ TimeAdd(ns, d) == ToDec(Add(FromDec(ns), FromDec(IToDec(d))))
 TimeSubSat(a, b) == LET d == Sub(FromDec(a), FromDec(b)) IN
                     IF Cmp(d, MaxI64) > 0 THEN ToDec(MaxI64) ELSE IF Cmp(d, MinI64) < 0 THEN ToDec(MinI64) ELSE ToDec(d)
 TimeCmp(a, b) == Cmp(FromDec(a), FromDec(b))
-\* StringLiteral.ToTimeLiteral(time.UTC): [ok, lit]
-ToTimeLiteral(s) == LET p == ParseTimeStr(s) IN [ok |-> p.ok, lit |-> TimeL(ToDec(p.ns))]
+\* StringLiteral.ToTimeLiteral(loc): [ok, lit]
+ToTimeLiteral(s, loc) == LET p == ParseTimeStrIn(s, loc) IN [ok |-> p.ok, lit |-> TimeL(ToDec(p.ns))]
 
 \* ------------------------------------------------------------------ reduceBinaryExprBooleanLHS
 RBooleanLHS(op, lhs, rhs) ==
@@ -57,28 +64,28 @@ RBooleanLHS(op, lhs, rhs) ==
   ELSE Bin(op, lhs, rhs)
 
 \* ------------------------------------------------------------------ reduceBinaryExprTimeLHS
-RECURSIVE RTimeLHS(_, _, _)
-RTimeLHS(op, lhs, rhs) ==
+RECURSIVE RTimeLHS(_, _, _, _)
+RTimeLHS(op, lhs, rhs, loc) ==
   CASE rhs.k = "DurationLiteral" ->
          (CASE op = "+" -> TimeL(TimeAdd(lhs.ns, IV(rhs)))
             [] op = "-" -> TimeL(TimeAdd(lhs.ns, I64Neg(IV(rhs))))         \* lhs.Val.Add(-rhs.Val): the negation wraps
             [] OTHER -> Bin(op, lhs, rhs))
     [] rhs.k = "IntegerLiteral" ->
-         LET x == RTimeLHS(op, lhs, DurL(rhs.Val)) IN IF ~IsBin(x) THEN x ELSE Bin(op, lhs, rhs)
+         LET x == RTimeLHS(op, lhs, DurL(rhs.Val), loc) IN IF ~IsBin(x) THEN x ELSE Bin(op, lhs, rhs)
     [] rhs.k = "TimeLiteral" ->
          (CASE op = "-" -> DurL(TimeSubSat(lhs.ns, rhs.ns))
             [] op \in CmpOps -> BoolL(CmpResult(op, TimeCmp(lhs.ns, rhs.ns)))
             [] OTHER -> Bin(op, lhs, rhs))
     [] rhs.k = "StringLiteral" ->
-         LET t == ToTimeLiteral(rhs.Val) IN
+         LET t == ToTimeLiteral(rhs.Val, loc) IN
          IF ~t.ok THEN Bin(op, lhs, rhs)
-         ELSE LET x == RTimeLHS(op, lhs, t.lit) IN IF ~IsBin(x) THEN x ELSE Bin(op, lhs, rhs)
+         ELSE LET x == RTimeLHS(op, lhs, t.lit, loc) IN IF ~IsBin(x) THEN x ELSE Bin(op, lhs, rhs)
     [] rhs.k = "NilLiteral" -> BoolL(FALSE)
     [] OTHER -> Bin(op, lhs, rhs)
 
 \* ------------------------------------------------------------------ reduceBinaryExprDurationLHS
-RECURSIVE RDurationLHS(_, _, _)
-RDurationLHS(op, lhs, rhs) ==
+RECURSIVE RDurationLHS(_, _, _, _)
+RDurationLHS(op, lhs, rhs, loc) ==
   CASE rhs.k = "DurationLiteral" ->
          (CASE op = "+" -> DurLI(I64Add(IV(lhs), IV(rhs))) [] op = "-" -> DurLI(I64Sub(IV(lhs), IV(rhs)))
             [] op \in CmpOps -> BoolL(CmpResult(op, ICmp(IV(lhs), IV(rhs))))
@@ -92,9 +99,9 @@ RDurationLHS(op, lhs, rhs) ==
     [] rhs.k = "TimeLiteral" ->
          (IF op = "+" THEN TimeL(TimeAdd(rhs.ns, IV(lhs))) ELSE Bin(op, lhs, rhs))
     [] rhs.k = "StringLiteral" ->
-         LET t == ToTimeLiteral(rhs.Val) IN
+         LET t == ToTimeLiteral(rhs.Val, loc) IN
          IF ~t.ok THEN Bin(op, lhs, rhs)
-         ELSE LET x == RDurationLHS(op, lhs, t.lit) IN IF ~IsBin(x) THEN x ELSE Bin(op, lhs, rhs)
+         ELSE LET x == RDurationLHS(op, lhs, t.lit, loc) IN IF ~IsBin(x) THEN x ELSE Bin(op, lhs, rhs)
     [] rhs.k = "NilLiteral" -> BoolL(FALSE)
     [] OTHER -> Bin(op, lhs, rhs)
 
@@ -134,7 +141,7 @@ RUnsignedLHS(op, lhs, rhs) ==
     [] OTHER -> Bin(op, lhs, rhs)                                           \* no NilLiteral case either
 
 \* ------------------------------------------------------------------ reduceBinaryExprIntegerLHS
-RIntegerLHS(op, lhs, rhs) ==
+RIntegerLHS(op, lhs, rhs, loc) ==
   CASE rhs.k = "NumberLiteral" -> RNumberLHS(op, NumF(FFromI(IV(lhs))), rhs)
     [] rhs.k = "IntegerLiteral" ->
          LET x == IV(lhs) y == IV(rhs) IN
@@ -154,11 +161,11 @@ RIntegerLHS(op, lhs, rhs) ==
             [] op = "-" -> TimeL(TimeAdd(lhs.Val, I64Neg(IV(rhs))))
             [] OTHER -> Bin(op, lhs, rhs))
     [] rhs.k = "TimeLiteral" ->
-         LET x == RDurationLHS(op, DurL(lhs.Val), rhs) IN IF ~IsBin(x) THEN x ELSE Bin(op, lhs, rhs)
+         LET x == RDurationLHS(op, DurL(lhs.Val), rhs, loc) IN IF ~IsBin(x) THEN x ELSE Bin(op, lhs, rhs)
     [] rhs.k = "StringLiteral" ->
-         LET t == ToTimeLiteral(rhs.Val) IN
+         LET t == ToTimeLiteral(rhs.Val, loc) IN
          IF ~t.ok THEN Bin(op, lhs, rhs)
-         ELSE LET x == RDurationLHS(op, DurL(lhs.Val), t.lit) IN IF ~IsBin(x) THEN x ELSE Bin(op, lhs, rhs)
+         ELSE LET x == RDurationLHS(op, DurL(lhs.Val), t.lit, loc) IN IF ~IsBin(x) THEN x ELSE Bin(op, lhs, rhs)
     [] rhs.k = "NilLiteral" -> BoolL(FALSE)
     [] OTHER -> Bin(op, lhs, rhs)
 
@@ -166,22 +173,22 @@ RIntegerLHS(op, lhs, rhs) ==
 RNilLHS(op, lhs, rhs) == IF op \in EqOps THEN BoolL(FALSE) ELSE Bin(op, lhs, rhs)
 
 \* ------------------------------------------------------------------ reduceBinaryExprStringLHS
-StringAsTime(op, lhs, rhs) ==     \* "attempt to convert the string literal to a time literal"
-  LET t == ToTimeLiteral(lhs.Val) IN
+StringAsTime(op, lhs, rhs, loc) ==     \* "attempt to convert the string literal to a time literal"
+  LET t == ToTimeLiteral(lhs.Val, loc) IN
   IF ~t.ok THEN Bin(op, lhs, rhs)
-  ELSE LET x == RTimeLHS(op, t.lit, rhs) IN IF ~IsBin(x) THEN x ELSE Bin(op, lhs, rhs)
-RStringLHS(op, lhs, rhs, dv) ==
+  ELSE LET x == RTimeLHS(op, t.lit, rhs, loc) IN IF ~IsBin(x) THEN x ELSE Bin(op, lhs, rhs)
+RStringLHS(op, lhs, rhs, loc, dv) ==
   CASE rhs.k = "StringLiteral" ->
          (IF op \in EqOps THEN
                LET plain == BoolL(IF op = "=" THEN lhs.Val = rhs.Val ELSE lhs.Val # rhs.Val) IN
                IF dv.tse /\ LooksLikeTime(lhs.Val) /\ LooksLikeTime(rhs.Val) THEN
-                    LET a == ToTimeLiteral(lhs.Val) b == ToTimeLiteral(rhs.Val) IN
+                    LET a == ToTimeLiteral(lhs.Val, loc) b == ToTimeLiteral(rhs.Val, loc) IN
                     IF ~a.ok \/ ~b.ok THEN plain
-                    ELSE LET t == RTimeLHS(op, a.lit, b.lit) IN IF ~IsBin(t) THEN t ELSE plain
+                    ELSE LET t == RTimeLHS(op, a.lit, b.lit, loc) IN IF ~IsBin(t) THEN t ELSE plain
                ELSE plain
           ELSE IF op = "+" THEN StrL(lhs.Val \o rhs.Val)
-          ELSE StringAsTime(op, lhs, rhs))
-    [] rhs.k \in {"DurationLiteral", "TimeLiteral", "IntegerLiteral"} -> StringAsTime(op, lhs, rhs)
+          ELSE StringAsTime(op, lhs, rhs, loc))
+    [] rhs.k \in {"DurationLiteral", "TimeLiteral", "IntegerLiteral"} -> StringAsTime(op, lhs, rhs, loc)
     [] rhs.k = "NilLiteral" -> (IF op \in EqOps THEN BoolL(FALSE) ELSE Bin(op, lhs, rhs))
     [] OTHER -> Bin(op, lhs, rhs)
 
@@ -193,11 +200,12 @@ AsLiteral(v, dv) ==
     [] OTHER -> NilL
 
 \* ------------------------------------------------------------------ reduce and its helpers
-\* vl: the valuer given to Reduce: [binds |-> sequence of [n, val], call |-> it is a CallValuer, now |-> ns]
+\* vl: the valuer given to Reduce, resolved: [binds |-> sequence of [n, val] its Value knows, call |-> its Call answers now(),
+\*      now |-> ns, loc |-> reduceBinaryExpr's loc (minutes east of UTC)]
 HasBinding(binds, n) == \E i \in 1..Len(binds) : binds[i].n = n
 RECURSIVE RReduce(_, _, _)
 RBinary(e, vl, dv) ==
-  LET op == e.Op lhs == RReduce(e.LHS, vl, dv) rhs == RReduce(e.RHS, vl, dv) IN
+  LET op == e.Op lhs == RReduce(e.LHS, vl, dv) rhs == RReduce(e.RHS, vl, dv) loc == vl.loc IN
   IF op = "AND" /\ (IsFalseLiteral(lhs) \/ IsFalseLiteral(rhs)) THEN BoolL(FALSE)
   ELSE IF op = "AND" /\ IsTrueLiteral(lhs) THEN rhs
   ELSE IF op = "AND" /\ IsTrueLiteral(rhs) THEN lhs
@@ -205,13 +213,13 @@ RBinary(e, vl, dv) ==
   ELSE IF op = "OR" /\ IsFalseLiteral(lhs) THEN rhs
   ELSE IF op = "OR" /\ IsFalseLiteral(rhs) THEN lhs
   ELSE CASE lhs.k = "BooleanLiteral" -> RBooleanLHS(op, lhs, rhs)
-         [] lhs.k = "DurationLiteral" -> RDurationLHS(op, lhs, rhs)
-         [] lhs.k = "IntegerLiteral" -> RIntegerLHS(op, lhs, rhs)
+         [] lhs.k = "DurationLiteral" -> RDurationLHS(op, lhs, rhs, loc)
+         [] lhs.k = "IntegerLiteral" -> RIntegerLHS(op, lhs, rhs, loc)
          [] lhs.k = "UnsignedLiteral" -> RUnsignedLHS(op, lhs, rhs)
          [] lhs.k = "NilLiteral" -> RNilLHS(op, lhs, rhs)
          [] lhs.k = "NumberLiteral" -> RNumberLHS(op, lhs, rhs)
-         [] lhs.k = "StringLiteral" -> RStringLHS(op, lhs, rhs, dv)
-         [] lhs.k = "TimeLiteral" -> RTimeLHS(op, lhs, rhs)
+         [] lhs.k = "StringLiteral" -> RStringLHS(op, lhs, rhs, loc, dv)
+         [] lhs.k = "TimeLiteral" -> RTimeLHS(op, lhs, rhs, loc)
          [] OTHER -> Bin(op, lhs, rhs)
 RCall(e, vl, dv) ==
   LET args == IF "Args" \in DOMAIN e THEN [i \in 1..Len(e.Args) |-> RReduce(e.Args[i], vl, dv)] ELSE <<>> IN
@@ -228,6 +236,39 @@ RReduce(e, vl, dv) ==
 \* Reduce: unwrap parens at top level
 MReduce(e, vl, dv) == LET r == RReduce(e, vl, dv) IN IF r.k = "ParenExpr" THEN r.Expr ELSE r
 
-MapValuer(binds) == [binds |-> binds, call |-> FALSE, now |-> "0"]
-NowValuer(binds, now) == [binds |-> binds, call |-> TRUE, now |-> now]
+MapValuer(binds) == [binds |-> binds, call |-> FALSE, now |-> "0", loc |-> 0]
+NowValuer(binds, now) == [binds |-> binds, call |-> TRUE, now |-> now, loc |-> 0]     \* MultiValuer(MapValuer, &NowValuer{Now})
+
+\* ------------------------------------------------------------------ MapValuer, NowValuer, multiValuer
+\* on a composition tree vt (TimeSem's header); binds are the MapValuer's bindings, now the NowValuers' Now
+ZeroTimeNs == "-62135596800000000000"                   \* time.Time{}: what a NowValuer without Now answers
+IsCallValuer(v) == v.k \in {"now", "multi"}             \* var _ CallValuer = (*NowValuer)(nil), multiValuer(nil)
+IsZoneValuer(v) == v.k \in {"now", "multi"}             \* var _ ZoneValuer = (*NowValuer)(nil), multiValuer(nil)
+NilZone == [nil |-> TRUE, off |-> 0]
+RECURSIVE VValue(_, _), VValueSeq(_, _, _), VCall(_, _), VCallSeq(_, _, _), VZone(_), VZoneSeq(_, _)
+\* Value: the bindings a valuer answers for, a member earlier in a multiValuer shadowing the later ones
+\* (NowValuer.Value only knows the key "now()", which is no identifier of the cases)
+VValue(v, binds) == CASE v.k = "map" -> binds [] v.k = "multi" -> VValueSeq(v.ms, binds, 1) [] OTHER -> <<>>
+VValueSeq(ms, binds, i) ==
+  IF i > Len(ms) THEN <<>>
+  ELSE LET a == VValue(ms[i], binds) IN a \o SelectSeq(VValueSeq(ms, binds, i + 1), LAMBDA b : ~HasBinding(a, b.n))
+\* Call("now", no arguments): [ok, now]
+VCall(v, now) == CASE v.k = "now" -> [ok |-> TRUE, now |-> IF v.now THEN now ELSE ZeroTimeNs]     \* returns v.Now, true (zero or not)
+                   [] v.k = "multi" -> VCallSeq(v.ms, now, 1)
+                   [] OTHER -> [ok |-> FALSE, now |-> "0"]
+VCallSeq(ms, now, i) == IF i > Len(ms) THEN [ok |-> FALSE, now |-> "0"]
+                        ELSE IF IsCallValuer(ms[i]) /\ VCall(ms[i], now).ok THEN VCall(ms[i], now)
+                        ELSE VCallSeq(ms, now, i + 1)
+\* Zone: NowValuer.Zone is its Location (nil when it has none); multiValuer.Zone is the first non-nil
+\* Zone() among the members that are ZoneValuers
+VZone(v) == CASE v.k = "now" -> (IF "off" \in DOMAIN v THEN [nil |-> FALSE, off |-> v.off] ELSE NilZone)
+              [] v.k = "multi" -> VZoneSeq(v.ms, 1)
+              [] OTHER -> NilZone
+VZoneSeq(ms, i) == IF i > Len(ms) THEN NilZone
+                   ELSE IF IsZoneValuer(ms[i]) /\ ~VZone(ms[i]).nil THEN VZone(ms[i])
+                   ELSE VZoneSeq(ms, i + 1)
+\* reduceBinaryExpr: loc := time.UTC; if valuer is a ZoneValuer and its Zone() is not nil, loc = it
+VLoc(v) == IF IsZoneValuer(v) /\ ~VZone(v).nil THEN VZone(v).off ELSE 0
+CompValuer(vt, binds, now) ==
+  [binds |-> VValue(vt, binds), call |-> IsCallValuer(vt) /\ VCall(vt, now).ok, now |-> VCall(vt, now).now, loc |-> VLoc(vt)]
 =============================================================================
